@@ -1,6 +1,9 @@
 -- written by bin/mkroundpins from /repo at commit 472862f
 namespace Mps.SrcPins.SrcCmpPresign
 def f_abort1 : List String := [
+  "decl:_ 79a7ceeb05fd011b068fcb62",
+  "decl:abort1 28a1178db5ef6b48ce9bc963",
+  "decl:broadcastAbort1 30f7e64be98c669e18fbe9a3",
   "abort1.StoreBroadcastMessage 6aeda8ef89b1e6d911feab79",
   "abort1.VerifyMessage 802d63134a23acda92d7513c",
   "abort1.StoreMessage 802d63134a23acda92d7513c",
@@ -9,10 +12,14 @@ def f_abort1 : List String := [
   "broadcastAbort1.RoundNumber f45525cb9ef102cfdafb5e67",
   "abort1.BroadcastContent eedd1aff3ebbc002de8c264b",
   "abort1.Number f45525cb9ef102cfdafb5e67",
+  "decl:abortNth e18a3eff4200ecf94502e6bd",
   "proveNth 2766b6f3fa75b18115591898",
   "abortNth.Verify 182d2764cb558b7c21cea6cd"
 ]
 def f_abort2 : List String := [
+  "decl:_ 900415305e8c0b030cb21181",
+  "decl:abort2 701bb483f3d335764d54afd7",
+  "decl:broadcastAbort2 0ce87ba2d2b4e1fdfb676d2a",
   "abort2.StoreBroadcastMessage 2566ad741cf7828134dca1d5",
   "abort2.VerifyMessage 802d63134a23acda92d7513c",
   "abort2.StoreMessage 802d63134a23acda92d7513c",
@@ -23,6 +30,8 @@ def f_abort2 : List String := [
   "abort2.Number 5012924adb9ffb93a07ca1b1"
 ]
 def f_presign1 : List String := [
+  "decl:_ b207b5cfbe3f3fa5e390adf2",
+  "decl:presign1 5d8c3ce3a29dc98485652163",
   "presign1.VerifyMessage 802d63134a23acda92d7513c",
   "presign1.StoreMessage 802d63134a23acda92d7513c",
   "presign1.Finalize 7881b1cf2b8108dcd4495b3c",
@@ -30,6 +39,10 @@ def f_presign1 : List String := [
   "presign1.Number b4fc1b1a37769dc302afcc74"
 ]
 def f_presign2 : List String := [
+  "decl:_ f03f0fe09a4aff6ef7957b09",
+  "decl:presign2 cb2ea0cf8dc56912e649609c",
+  "decl:broadcast2 3088c9429f6c438f1d3e2b8c",
+  "decl:message2 c59cf16cc846e6f35f3530af",
   "presign2.StoreBroadcastMessage e1d7295c3ab0de8079f478b5",
   "presign2.VerifyMessage 09093536e08bde1fb16adb50",
   "presign2.StoreMessage 802d63134a23acda92d7513c",
@@ -41,6 +54,10 @@ def f_presign2 : List String := [
   "presign2.Number afbf3b2d17fee1f6ce5e2421"
 ]
 def f_presign3 : List String := [
+  "decl:_ 6d3ba316ea219f232bc0b47d",
+  "decl:presign3 97ca7132ba9dd6bbb389f321",
+  "decl:broadcast3 cc16358de644c25b824a876a",
+  "decl:message3 3dedf2f49989d297c2029215",
   "presign3.StoreBroadcastMessage e1cc990cdf75877ea564415f",
   "presign3.VerifyMessage f9c8c2e910e3a1bb91dd31ac",
   "presign3.StoreMessage 802d63134a23acda92d7513c",
@@ -53,6 +70,9 @@ def f_presign3 : List String := [
   "broadcast3.BroadcastData 2d725652d4092b001d86da81"
 ]
 def f_presign4 : List String := [
+  "decl:_ cb82e567d999383d4097b0e0",
+  "decl:presign4 a5cf2bdc17428c1cd4f22f8c",
+  "decl:broadcast4 5a59e5604831cdfb3cd5f69a",
   "presign4.StoreBroadcastMessage a77bc79027225c1dfe5c4530",
   "presign4.VerifyMessage 802d63134a23acda92d7513c",
   "presign4.StoreMessage 802d63134a23acda92d7513c",
@@ -63,6 +83,10 @@ def f_presign4 : List String := [
   "presign4.Number 2f0406b57b2a5ab93a363714"
 ]
 def f_presign5 : List String := [
+  "decl:_ c4b09beed5e989a63162f0e2",
+  "decl:presign5 a7b55e5f4656c07b839f9262",
+  "decl:message5 96189745e608d7b4f901ad27",
+  "decl:broadcast5 b52358409487843fe43f4124",
   "presign5.StoreBroadcastMessage e3f100fb165c63dff14d97f6",
   "presign5.VerifyMessage e4d0c30b43bdd0c08497ab5c",
   "presign5.StoreMessage 802d63134a23acda92d7513c",
@@ -74,6 +98,9 @@ def f_presign5 : List String := [
   "presign5.Number 3f92817c9481a77279e340a8"
 ]
 def f_presign6 : List String := [
+  "decl:_ 024943679889eead463d19bf",
+  "decl:presign6 d18b1fe9250549d0ff7dbae0",
+  "decl:broadcast6 ceb71bb865899b8c937fa37d",
   "presign6.StoreBroadcastMessage aa074f65f26562e4725b6b79",
   "presign6.VerifyMessage 802d63134a23acda92d7513c",
   "presign6.StoreMessage d460581a3dffa53d53b326e6",
@@ -84,6 +111,9 @@ def f_presign6 : List String := [
   "presign6.Number 7d2e45f088d8cc2b199a46bb"
 ]
 def f_presign7 : List String := [
+  "decl:_ a0cffe7439de8f4b27a26f7e",
+  "decl:presign7 4c6c881180c80052d2ab7951",
+  "decl:broadcast7 9a2ff1fee70560943fc6f308",
   "presign7.StoreBroadcastMessage f22860dcebfa238d1dfb4d20",
   "presign7.VerifyMessage 802d63134a23acda92d7513c",
   "presign7.StoreMessage 802d63134a23acda92d7513c",
@@ -94,10 +124,13 @@ def f_presign7 : List String := [
   "presign7.Number f45525cb9ef102cfdafb5e67"
 ]
 def f_sign : List String := [
+  "decl:protocolOfflineID,protocolOnlineID,protocolFullID,protocolOfflineRounds,protocolFullRounds 61e5eb0377f8db8b7635deb9",
   "StartPresign 27ea0736c18b8a3e93dd528b",
   "StartPresignOnline 414390687d2f18054ccbf348"
 ]
 def f_sign1 : List String := [
+  "decl:_ 5aa44eeedd972bd0d20cbd5c",
+  "decl:sign1 95eebfd58842d13346247a01",
   "sign1.VerifyMessage 802d63134a23acda92d7513c",
   "sign1.StoreMessage 802d63134a23acda92d7513c",
   "sign1.Finalize 02d13a5e6a4c49ac2ec1ae7c",
@@ -105,6 +138,9 @@ def f_sign1 : List String := [
   "sign1.Number b4fc1b1a37769dc302afcc74"
 ]
 def f_sign2 : List String := [
+  "decl:_ 552dc8a706790b3a3a148894",
+  "decl:sign2 e7375fdd07292d14f80b265a",
+  "decl:broadcastSign2 65973e9a026dcc65f5555453",
   "sign2.StoreBroadcastMessage f9ee63f464a5c67df8031359",
   "sign2.VerifyMessage 802d63134a23acda92d7513c",
   "sign2.StoreMessage 802d63134a23acda92d7513c",
